@@ -44,6 +44,7 @@ type Check struct {
 
 	deadline time.Time
 	capHit   atomic.Bool
+	wallCap  atomic.Bool // the wall-clock cap (Expired) fired: coverage guards are void from then on
 	capName  string
 
 	evaluations atomic.Int64
@@ -63,6 +64,7 @@ type Check struct {
 	known     map[string]string // key -> description (from known_findings.txt)
 	knownHit  map[string]int
 	vacuity   []string
+	skipped   []string // guards that failed after the wall-clock cap (reported, not fatal)
 	finished  bool
 	maxSample int
 }
@@ -127,10 +129,10 @@ func (c *Check) loadKnown() {
 	}
 }
 
-func (c *Check) Tier() string    { return c.tier }
-func (c *Check) Thorough() bool  { return c.tier == "thorough" }
-func (c *Check) Seed() int64     { return c.seed }
-func (c *Check) Root() string    { return c.root }
+func (c *Check) Tier() string   { return c.tier }
+func (c *Check) Thorough() bool { return c.tier == "thorough" }
+func (c *Check) Seed() int64    { return c.seed }
+func (c *Check) Root() string   { return c.root }
 func (c *Check) Workers() int {
 	n := runtime.NumCPU()
 	if v, err := strconv.Atoi(os.Getenv("VERIF_WORKERS")); err == nil && v > 0 {
@@ -154,6 +156,7 @@ func (c *Check) Expired(what string) bool {
 	if time.Now().Before(c.deadline) {
 		return false
 	}
+	c.wallCap.Store(true)
 	if c.capHit.CompareAndSwap(false, true) {
 		c.mu.Lock()
 		c.capName = what
@@ -274,7 +277,14 @@ func (c *Check) Require(cond bool, format string, args ...any) {
 		return
 	}
 	c.mu.Lock()
-	c.vacuity = append(c.vacuity, fmt.Sprintf(format, args...))
+	if c.wallCap.Load() {
+		// the run was cut by the wall-clock cap (exhaustive:false): a coverage
+		// guard evaluated afterwards says nothing about the harness and must not
+		// turn a capped run into a broken one
+		c.skipped = append(c.skipped, fmt.Sprintf(format, args...))
+	} else {
+		c.vacuity = append(c.vacuity, fmt.Sprintf(format, args...))
+	}
 	c.mu.Unlock()
 }
 
@@ -319,6 +329,13 @@ func (c *Check) Finish() {
 		cov["stricter_than_statement"] = c.stricter
 	}
 	cov["exhaustive"] = !c.capHit.Load()
+	if len(c.skipped) > 0 {
+		sk := c.skipped
+		if len(sk) > 20 {
+			sk = sk[:20]
+		}
+		cov["guards_void_after_wall_cap"] = sk
+	}
 	if c.capHit.Load() {
 		cov["cap_hit"] = c.capName
 	}
@@ -383,6 +400,9 @@ func (c *Check) Finish() {
 		c.ID, c.tier, c.evaluations.Load(), len(c.distinct), c.states.Load(), c.transitions.Load(), len(c.outcomes), !c.capHit.Load(), len(c.viol), wall)
 	if len(c.viol) > 0 {
 		c.t.Errorf("%d violation(s) of %s", len(c.viol), c.ID)
+	}
+	for _, v := range c.skipped {
+		fmt.Printf("VERIF-NOTE property=%s guard void after the wall-clock cap: %s\n", c.ID, v)
 	}
 	if len(c.viol) == 0 && len(c.vacuity) > 0 {
 		for _, v := range c.vacuity {
